@@ -613,6 +613,8 @@ class CallsMixin:
                 return gamma(c, args[0], args[1])
             return T("call", name, tuple(args), ty="int")
         if name == "round":
+            if len(args) == 1 and args[0].k == "const" and isinstance(args[0].a[0], (int, float)):
+                return C(round(args[0].a[0]))
             return T("call", "round", tuple(args), ty="int" if len(args) == 1 else "float")
         if name == "math.floor":
             return T("call", "floor", tuple(args), ty="int")
